@@ -111,6 +111,38 @@ func e4Run(c *Ctx, p *core.Program, sc *e4Scope, suffix string) *e4Stats {
 			scoped = append(scoped, fi)
 		}
 	}
+	// scope closure: an unexported function all of whose static callers are in scope (and that is never used as a
+	// value) is code extracted from the scoped functions; its bounds checks belong to the same property.
+	{
+		calls := p.BuildStaticCalls()
+		pkgs := map[string]bool{}
+		for _, fi := range scoped {
+			pkgs[fi.Pkg.PkgPath] = true
+		}
+		for changed := true; changed; {
+			changed = false
+			for _, fi := range p.AllFuncs() {
+				if fi.Decl.Body == nil || scopedFuncs[fi] || !pkgs[fi.Pkg.PkgPath] || fi.Obj == nil || fi.Obj.Exported() {
+					continue
+				}
+				callers := calls.Callers[fi.Obj]
+				if len(callers) == 0 || len(calls.ValueRefs[fi.Obj]) > 0 {
+					continue
+				}
+				ok := true
+				for cf := range callers {
+					if d := p.DeclOf(cf); d == nil || !scopedFuncs[d] {
+						ok = false
+					}
+				}
+				if ok {
+					scopedFuncs[fi] = true
+					scoped = append(scoped, fi)
+					changed = true
+				}
+			}
+		}
+	}
 	inScopeCtx := func(cx *e4.FnCtx) bool { return cx != nil && scopedFuncs[cx.Owner] }
 
 	// total bounds-checked sites of the scoped functions (for the compiler-discharged count)
